@@ -16,8 +16,12 @@ class Box(object):
     def __init__(self, kind, prefix='p', **kw):
         self.kind, self.prefix, self.kw = kind, prefix, kw
         self.dir = None
+        self.root = None
         if kind == 'file':
-            self.dir = tempfile.mkdtemp(prefix='mc_cas_')
+            self.dir = self.root = tempfile.mkdtemp(prefix='mc_cas_')
+            if kw.get('subdir'):   # a legal directory name that happens to contain pattern / format metacharacters
+                self.dir = os.path.join(self.root, kw.pop('subdir'))
+                os.makedirs(self.dir)
         elif kind == 's3':
             fakes3.install()
             self.store = fakes3.new_store(kw.pop('clock', None))
@@ -39,8 +43,8 @@ class Box(object):
         return self._make()
 
     def close(self):
-        if self.dir and os.path.isdir(self.dir):
-            shutil.rmtree(self.dir, ignore_errors=True)
+        if self.root and os.path.isdir(self.root):
+            shutil.rmtree(self.root, ignore_errors=True)
 
 
 def _snapshot(box):
